@@ -2,9 +2,9 @@
    Only statements closed by [exact]; the model is C13/ValidateModel.v, the declarative
    predicate C13/ValidateSpec.v, the proofs C13/ValidateProofs.v and C13/FaultProofs.v,
    the per-simulator tables C13/SimTablesGen.v (regenerated from the package on every run). *)
-From Coq Require Import ZArith List Bool.
+From Coq Require Import ZArith QArith List Bool.
 From PV Require Import C13.SimTypes C13.ValidateModel C13.ValidateSpec C13.ValidateProofs
-  C13.FaultProofs C13.SimTablesGen C13.TableProofs.
+  C13.FaultProofs C13.SimTablesGen C13.TableProofs C13.ParamModel C13.ParamProofs.
 Import ListNotations.
 Open Scope Z_scope.
 
@@ -134,6 +134,27 @@ Theorem C13_inferred_d : forall p d,
   (exists i m, In i p /\ In m (i_modes i) /\ d = m + 1).
 Proof. exact infer_d_spec. Qed.
 Print Assumptions C13_inferred_d.
+
+(* the documented parameter constraints that are pure functions of the values
+   (tied to Instruction._validate / the step checks by the parameter grid of the check) *)
+Theorem C13_param_square : forall r c, documented_param_ok (PSquare r c) = true <-> r = c.
+Proof. exact param_square_spec. Qed.
+Theorem C13_param_thermal : forall ns,
+  documented_param_ok (PThermal ns) = true <-> Forall (fun x => (0 <= x)%Q) ns.
+Proof. exact param_thermal_spec. Qed.
+Theorem C13_param_interval : forall x,
+  documented_param_ok (PInterval01 x) = true <-> ((0 <= x)%Q /\ (x <= 1)%Q).
+Proof. exact param_interval_spec. Qed.
+Theorem C13_param_snap : forall l c, documented_param_ok (PSnap l c) = true <-> l = c.
+Proof. exact param_snap_spec. Qed.
+Theorem C13_param_occupation : forall occ c,
+  documented_param_ok (POccupation occ c) = true <-> zsum occ < c.
+Proof. exact param_occupation_spec. Qed.
+Print Assumptions C13_param_thermal.
+Example C13_param_symplectic_examples :
+  symplectic_real [[5#4; 0#1]; [0#1; 5#4]] [[3#4; 0#1]; [0#1; 3#4]] = true /\
+  symplectic_real [[2#1; 0#1]; [0#1; 2#1]] [[0#1; 0#1]; [0#1; 0#1]] = false.
+Proof. exact symplectic_squeezing. Qed.
 
 (* finite facts about the generated tables (re-proved on every run) *)
 Example C13_tables_sane : tables_sane all_classes all_sims = true.
